@@ -7,6 +7,11 @@
 //!
 //! argv: <K> <D> <sizes n1,n2,..> <lut|static|both> <order-seed> <yield 0|1> <main-draws 0|1> [battery 0|1] [seq|cyc] [ops-seed]
 //!   ops-seed != 0: after every draw the thread makes one other public API call (see ops.rs)
+//!   further options as key=value after the positional ones:
+//!     warm=1  the main thread makes ONE draw per (size, type) of the workload before any worker is
+//!             spawned (thread id 1000), so no worker is the first caller in the process
+//!     gens=G  the K workers are spawned in G successive generations, each joined before the next
+//!             starts (thread ids g*K + t): thread churn, TLS/address reuse across threads
 //!
 //! mode `seq` (default): every thread walks the size list in its own permutation and performs D
 //!   draws per size (and per type) back to back.
@@ -78,6 +83,8 @@ struct Cfg {
     battery: bool,
     cycle: Vec<(u8, usize)>, // non-empty in mode `cyc`
     ops: u64,
+    warm: bool,
+    gens: usize,
 }
 
 fn splitmix(x: &mut u64) -> u64 {
@@ -315,7 +322,7 @@ fn main() {
         usage();
     }
     let p = |s: &str| -> u64 { s.parse().unwrap_or_else(|_| usage()) };
-    let cyc = a.len() > 9 && a[9] == "cyc";
+    let cyc = a.iter().skip(9).any(|x| x == "cyc");
     let mut cycle = Vec::new();
     if cyc {
         for tok in a[3].split(',') {
@@ -333,13 +340,15 @@ fn main() {
         d: p(&a[2]) as usize,
         sizes: if cyc { cycle.iter().map(|c| c.1).collect() } else { a[3].split(',').map(|s| p(s) as usize).collect() },
         cycle,
-        ops: if a.len() > 10 { p(&a[10]) } else { 0 },
+        ops: if a.len() > 10 && !a[10].contains('=') { p(&a[10]) } else { 0 },
+        warm: a.iter().any(|x| x == "warm=1"),
+        gens: a.iter().find_map(|x| x.strip_prefix("gens=")).map(|x| p(x) as usize).unwrap_or(1).max(1),
         lut: a[4] == "lut" || a[4] == "both",
         stat: a[4] == "static" || a[4] == "both",
         order: p(&a[5]),
         yld: p(&a[6]) != 0,
         main_draws: p(&a[7]) != 0,
-        battery: a.len() > 8 && p(&a[8]) != 0,
+        battery: a.len() > 8 && !a[8].contains('=') && p(&a[8]) != 0,
     };
     if !(cfg.lut || cfg.stat) || cfg.sizes.iter().any(|&n| n > 12) || cfg.k == 0 && !cfg.main_draws {
         usage();
@@ -360,12 +369,6 @@ fn main() {
     }));
 
     let t0 = std::time::Instant::now();
-    let mut handles = Vec::with_capacity(cfg.k);
-    for t in 0..cfg.k {
-        let c = cfg.clone();
-        handles.push(thread::spawn(move || worker(t, &c)));
-    }
-    let main_log = if cfg.main_draws { Some(worker(cfg.k, &cfg)) } else { None };
     let mut buf: Vec<u8> = Vec::with_capacity(1 << 16);
     buf.extend_from_slice(b"C");
     for s in &a[1..] {
@@ -373,18 +376,53 @@ fn main() {
         buf.extend_from_slice(s.as_bytes());
     }
     buf.push(b'\n');
-    for (t, h) in handles.into_iter().enumerate() {
-        match h.join() {
-            Ok(evs) => encode(&mut buf, t, &evs),
-            Err(_) => {
-                buf.extend_from_slice(b"J ");
-                put_dec(&mut buf, t as u64);
-                buf.push(b'\n');
+    if cfg.warm {
+        // one draw per (type, size) on the main thread before any worker exists
+        let mut evs = Vec::new();
+        let calls: Vec<(u8, usize)> = if !cfg.cycle.is_empty() {
+            cfg.cycle.clone()
+        } else {
+            let mut v = Vec::new();
+            for &n in &cfg.sizes {
+                if cfg.lut {
+                    v.push((b'L', n));
+                }
+                if cfg.stat {
+                    v.push((b'S', n));
+                }
+            }
+            v
+        };
+        for (i, (typ, n)) in calls.iter().enumerate() {
+            evs.push(Ev::Draw(one_draw(*typ, *n, 1000 + i as u32, 0)));
+        }
+        encode(&mut buf, 1000, &evs);
+    }
+    let main_tid = cfg.gens * cfg.k;
+    let mut main_log = None;
+    for g in 0..cfg.gens {
+        let mut handles = Vec::with_capacity(cfg.k);
+        for t in 0..cfg.k {
+            let c = cfg.clone();
+            let tid = g * cfg.k + t;
+            handles.push((tid, thread::spawn(move || worker(tid, &c))));
+        }
+        if g == 0 && cfg.main_draws {
+            main_log = Some(worker(main_tid, &cfg));
+        }
+        for (tid, h) in handles.into_iter() {
+            match h.join() {
+                Ok(evs) => encode(&mut buf, tid, &evs),
+                Err(_) => {
+                    buf.extend_from_slice(b"J ");
+                    put_dec(&mut buf, tid as u64);
+                    buf.push(b'\n');
+                }
             }
         }
     }
     if let Some(evs) = main_log {
-        encode(&mut buf, cfg.k, &evs);
+        encode(&mut buf, main_tid, &evs);
     }
     let el = t0.elapsed().as_nanos() as u64;
     buf.extend_from_slice(b"T ");
